@@ -1168,5 +1168,14 @@ def rule_orient(ctx):
     return r
 
 
-RULES = [rule_orient, rule_merge, rule_arith, rule_copy, rule_alias, rule_track, rule_staleread, rule_pre, rule_presource, rule_whole,
+def rule_keys(ctx):
+    """Shared with C02-KEYS (seed C04_14): a figure cached in a per-node entry under a key no getter defines (a
+    memoised peak, say) is refreshed by none of the incremental updates — the tracked tree keeps reporting it after
+    a change that a rebuild would notice."""
+    from .c02 import rule_keys as src
+
+    return C.reuse_rule(ctx, src, "C02-KEYS", "C04-KEYS", "no ad-hoc cached figures in per-node entries", lambda i: True, 8)
+
+
+RULES = [rule_keys, rule_orient, rule_merge, rule_arith, rule_copy, rule_alias, rule_track, rule_staleread, rule_pre, rule_presource, rule_whole,
          rule_presurv, rule_pure, rule_rebuild, rule_multpair, rule_maxcount, rule_leaf]
